@@ -16,7 +16,8 @@ RULE = (
     "generated values. Oracle: the result built with the legacy spelling == the one built with the current spelling "
     "(objects ==, numbers identical, registry entries identical); where the current spelling is rejected (cross-type "
     "conversions and constructions with a unit of another quantity type) the legacy spelling is rejected too. Plus FixUnitIfIsLegacy(legacy) == current, idempotent on "
-    "all 62 + 1548 symbols, no current symbol rewritten, no legacy spelling registered. Every cell is non-trivial "
+    "all 62 + 1548 symbols, no current symbol rewritten, no legacy spelling registered; spellings combining two legacy fragments (as units "
+    "registered at run time may) are rewritten by the whole chain, idempotently, and alias a run-time unit exactly. Every cell is non-trivial "
     "(an alias resolution); key = (spelling, API entry)."
 )
 ASSUMPTIONS = ["arbitrary strings are outside the domain (the rewrite is a substring chain)", "legacy fragments are an independent copy of the documented list; a pair removed from the library is a violation, a pair added is not"]
@@ -261,6 +262,21 @@ class Checker:
                 ctx.record("rewrite_not_idempotent", {"kind": "rewrite", "legacy": l, "current": u}, "FixUnitIfIsLegacy applied twice to %r: %r then %r" % (l, f, f2))
             if l in db.unit_to_unit_info:
                 ctx.record("legacy_spelling_is_registered", {"kind": "rewrite", "legacy": l, "current": u}, "legacy spelling %r is itself a registered symbol" % l)
+        # spellings made of two legacy fragments (units registered by a user may well combine them): the rewrite is the
+        # whole substitution chain, applied once, and applying it again changes nothing
+        frs = [l for l, _ in legacy.LEGACY_TO_CURRENT]
+        for l1 in frs:
+            for l2 in frs:
+                for sep in ("/", "."):
+                    sp = l1 + sep + l2
+                    ctx.ev()
+                    ch, f = FixUnitIfIsLegacy(sp)
+                    want = legacy.rewrite(sp)
+                    if f != want or not ch:
+                        ctx.record("rewrite_of_combined_fragments_wrong", {"kind": "rewrite", "legacy": sp, "current": want}, "FixUnitIfIsLegacy(%r) = %r, the substitution chain gives %r" % (sp, (ch, f), want))
+                    ch2, f2 = FixUnitIfIsLegacy(f)
+                    if ch2 or f2 != f:
+                        ctx.record("rewrite_not_idempotent", {"kind": "rewrite", "legacy": sp, "current": want}, "FixUnitIfIsLegacy applied twice to %r: %r then %r" % (sp, f, f2))
         for s in db.unit_to_unit_info:
             ctx.ev()
             ch, f = FixUnitIfIsLegacy(s)
@@ -269,7 +285,47 @@ class Checker:
         ctx.exhaustive["rewrite idempotence / non-capture over all legacy spellings and all table symbols"] = "%d + %d" % (len(self.sp), len(db.unit_to_unit_info))
 
 
+def check_runtime_unit(ctx):
+    """a unit registered at run time whose symbol contains two current fragments: its fully legacy spelling is an
+    exact alias in the main entries"""
+    from barril.units import Array, ObtainQuantity, Scalar
+
+    db = env.new_db("posc")
+    with env.pushed(db):
+        qt = "concentration of B"
+        base = db.GetBaseUnit(qt)
+        cur, leg = "lbmol/MMcf", "lbmole/M(ft3)"
+        if cur in db.unit_to_unit_info:
+            return
+        db.AddUnit(qt, "pound moles per million cubic feet", cur, "%f * 62427.96", "%f / 62427.96")
+        cat = qt
+        entries = [
+            ("ObtainQuantity", lambda s: ObtainQuantity(s, cat)),
+            ("Scalar(v,u,c)", lambda s: Scalar(2.5, s, cat)),
+            ("Array(values,u,c)", lambda s: Array([1.0, 2.0], s, cat)),
+            ("Scalar.GetValue", lambda s: Scalar(2.5, base, cat).GetValue(s)),
+            ("db.Convert(target)", lambda s: db.Convert(qt, base, s, 2.5)),
+            ("db.Convert(source)", lambda s: db.Convert(qt, s, base, 2.5)),
+            ("Scalar.CreateCopy(unit)", lambda s: Scalar(2.5, base, cat).CreateCopy(unit=s)),
+            ("AddCategory(valid_units)", lambda s: tuple(db.AddCategory("bv c16 rt %s" % len(s), qt, valid_units=[s, base]).valid_units)),
+        ]
+        for name, fn in entries:
+            case = {"kind": "runtime_unit", "legacy": leg, "current": cur, "entry": name}
+            ctx.ev()
+            want = fn(cur)
+            try:
+                got = fn(leg)
+            except Exception as e:
+                ctx.record("legacy_spelling_rejected:run-time unit:%s" % name, case, "%s with the legacy spelling %r of the run-time unit %r raised %s: %s" % (name, leg, cur, type(e).__name__, str(e)[:120]))
+                continue
+            if not _eq(got, want):
+                ctx.record("legacy_result_differs:run-time unit:%s" % name, case, "%s: %r gives %r, %r gives %r" % (name, leg, got, cur, want))
+        ctx.cls("runtime_unit_entries", len(entries))
+
+
 def run_shard(spec, ctx):
+    if spec["i"] == 0:
+        check_runtime_unit(ctx)
     db = env.new_db("posc")
     with env.pushed(db):
         ch = Checker(ctx, db)
@@ -307,6 +363,9 @@ def replay(case, ctx):
             ch.check_spelling(case["legacy"], case["x"], case["y"], units.index(case["w"]))
         elif k == "rewrite":
             ch.check_rewrite()
+    if case.get("kind") == "runtime_unit":
+        check_runtime_unit(ctx)
+        return ["%s: %s" % (k, v["msg"]) for k, v in ctx.violations.items()]
     if case.get("kind") == "registration":
         ch.check_registration(case["legacy"], "posc")
     return ["%s: %s" % (k, v["msg"]) for k, v in ctx.violations.items()]
